@@ -238,7 +238,8 @@ def _emit(r: Rendered, lay: Layout, depth: int, text: str, st: dict | None = Non
             r.lines.append("   line { ' ; */")
     line = _ind(lay, depth) + text
     if code and lay.on("comments", 0.15):
-        line += " ;" + (" trailing" if lay.rng.random() < 0.5 else _rand_comment(lay, False))
+        # the comment may follow the statement directly, after blanks or after a tab
+        line += lay.rng.choice([" ;", " ;", ";", ";", "\t;", "   ;"]) + (" trailing" if lay.rng.random() < 0.5 else _rand_comment(lay, False))
     if lay.on("trailing", 0.2):
         line += lay.rng.choice([" ", "  ", "   "])
     if st is not None:
